@@ -64,8 +64,36 @@ def gen_programs(prop, count, seed):
     progs = []
     for index in range(count):
         pseed = seed * 1000003 + index * 7919 + sum(ord(c) for c in prop)
+        if prop == "C09" and index % 2 == 0:
+            from harness import gen_fuzz
+            progs.append(gen_fuzz.generate(pseed))
+            continue
         progs.append(gen_motion.generate(pseed, focuses[index % len(focuses)]))
     return progs
+
+
+def stream_entry_events(prog):
+    """C09's second entry point: the same commands as lines through a StreamProcessor."""
+    import io
+    from harness.rig import FilterRig
+    from octoprint_excluderegion.StreamProcessor import StreamProcessor
+    rig = FilterRig(prog.cfg)
+    proc = StreamProcessor(io.BytesIO(b""), rig.handlers)
+    events = []
+    for step in prog.steps:
+        if step[0] == "addr":
+            proc.gcodeHandlers.state.addRegion(rig.make_region(step[1]))
+            continue
+        line = (step[1] if step[0] == "g" else "@" + step[1] + " " + step[2]) + "\n"
+        event = {"ev": "sp", "raised": "", "okshape": True, "src": line}
+        try:
+            ret = proc.process_line(line)
+            event["okshape"] = ret is None or isinstance(ret, str)
+        except Exception as err:  # pylint: disable=broad-except
+            event["raised"] = type(err).__name__
+            event["okshape"] = False
+        events.append(event)
+    return events
 
 
 def judge(prop, progs, traces, verdicts, started, tier, seed, extra_cov=None):
@@ -195,9 +223,13 @@ def run(prop, tier, seed):
     mprogs, mcs = model_guided(prop, tier, seed)
     progs = mprogs + progs
     traces = [record.run_filter_program(p, i + 1, keep_state=True) for i, p in enumerate(progs)]
+    if prop == "C09":
+        for trace, prog in zip(traces, progs):
+            trace["ev"] = trace["ev"] + stream_entry_events(prog)
     verdicts = common.validate_traces("TraceT2", "TraceT2.cfg", traces, "t2-" + prop)
     # sub-resolution values (1e-5 mm extrusion quanta) are below the model's native unit
-    t1 = t1_summary([t for t, p in zip(traces, progs) if getattr(p, "focus", "") != "tiny"])
+    t1 = t1_summary([t for t, p in zip(traces, progs)
+                     if getattr(p, "focus", "") not in ("tiny", "fuzz")])
     extra = {
         "t1_conformance": t1,
         "model_conformant": t1["diverged"] == 0,
